@@ -7,6 +7,7 @@ import Holpy.C12.Reread
 import Holpy.C12.Complete
 import Holpy.C12.Edits
 import Holpy.C12.Hist
+import Holpy.C12.Users
 /-
 C12 — property theorems (statements live here, helper lemmas in Proofs / Exec / Exec2 / Complete / Reread / Edits / Hist).
 
@@ -407,6 +408,68 @@ example : ¬ OkHistory siWorld 50 [1, 2] siFiles [.load 2 .none none, .edit 2 []
 example :
     let s := run siWorld 50 [.load 2 .none none, .edit 2 [] [20] 9, .reloadMeta] (initState [1, 2] siFiles)
     (exec siWorld none 50 (.load 2 .none) s).2.thy = some [] := by decide
+
+/-! ### several users (`execU`, `stepU`: Model.lean) -/
+
+theorem focus_thy (s : State) (u : Nat) : (s.focus u).thy = s.thy := by
+  unfold State.focus; split <;> rfl
+
+/-- Import resolution for a user: `load_theory(n, limit, username=u)` is the loader run on the library and cache of
+    user `u` ALONE (imports are looked up in `users/<u>/` only — the code has no fall-back to, or shadowing of, the
+    master library), so a normal return carries the specification evaluated on u's own files.
+    PARTIAL: proved for worlds without lazy imports (`lazyOf = none`).  With lazy imports a user's load can run
+    master loads through the `basic.load_theory` calls of imported modules (modelled in `execU`, tied to the
+    implementation by the second-user histories of the harness, not covered by a theorem). -/
+theorem user_resolution_spec_partial (W : World) (hlazy : ∀ n, W.lazyOf n = none) (L : Lib) (U : Used) (s : State)
+    (u : Nat) (hi : Inv W L U (s.focus u)) (f : Nat) (n : Name) (lim : Limit) :
+    let r := execU W none (f + 1) (.load u n lim) s
+    r.1 = none → ∀ k, specLoad W L k n lim ≠ .error .fuel → specLoad W L k n lim = .ok (r.2.thy.getD []) := by
+  intro r hr k hk
+  have heq := execU_load_eq W none hlazy f u n lim s
+  have h1 : r.1 = (exec W none (f + 1) (.load n lim) (s.focus u)).1 := by show (execU W none (f + 1) (.load u n lim) s).1 = _; rw [heq]
+  have h2 : r.2.thy = (exec W none (f + 1) (.load n lim) (s.focus u)).2.thy := by
+    show (execU W none (f + 1) (.load u n lim) s).2.thy = _; rw [heq]; exact focus_thy _ _
+  rw [h2]
+  exact (exec_post W L U none (f + 1) (.load n lim) _ hi).2.2 rfl (by rw [← h1]; exact hr) k hk
+
+/-- master has theories 1 ← 2 with items 10 / 20; user 1 has its own files for the same names: items 110 / 120 -/
+def uState : State :=
+  { initState [1, 2] siFiles with
+    others := fun u => if u = 1 then { names := [1, 2], files := fun n =>
+      if n = 1 then { imports := [], items := [110], mtime := 5 } else { imports := [1], items := [120], mtime := 5 } } else {} }
+
+example :
+    (execU siWorld none 50 (.load 1 2 .none) uState).2.thy = some [110, 120]
+    ∧ (execU siWorld none 50 (.load 0 2 .none) (execU siWorld none 50 (.load 1 2 .none) uState).2).2.thy = some [10, 20]
+    ∧ specLoad siWorld (uState.focus 1).lib 5 2 .none = .ok [110, 120] :=
+  ⟨by decide, by decide, by rfl⟩
+
+/-- Users are isolated as far as FILES go: replacing (or touching) a file of another user `B` changes neither the
+    library nor the cache of the user in focus, nor `theory.thy`; and an edit of a file of the user in focus leaves
+    the stored library and cache of every other user `A` as they are.
+    PARTIAL: that LOADS of user B leave every user A ∉ {B, master} untouched is how `execU` is built (a load focuses
+    on B's component; only master is reached, through module imports) and is tied to the implementation by the
+    second-user histories of the harness; it is not stated as a theorem. -/
+theorem users_isolated_partial (W : World) (fuel : Nat) (s : State) (B : Nat) (n : Name)
+    (imps : List Name) (items : List Item) (t : Nat) :
+    (B ≠ s.user →
+      (stepU W fuel (.edit B n imps items t) s).2.names = s.names ∧ (stepU W fuel (.edit B n imps items t) s).2.files = s.files
+      ∧ (stepU W fuel (.edit B n imps items t) s).2.cache = s.cache ∧ (stepU W fuel (.edit B n imps items t) s).2.thy = s.thy
+      ∧ (stepU W fuel (.touch B n t) s).2.files = s.files ∧ (stepU W fuel (.touch B n t) s).2.cache = s.cache)
+    ∧ (B = s.user → ∀ A, (stepU W fuel (.edit B n imps items t) s).2.others A = s.others A) := by
+  constructor
+  · intro hB
+    have hB' : ¬ s.user = B := fun h => hB h.symm
+    unfold stepU State.focus setFile
+    simp [hB, hB']
+  · intro hB A
+    unfold stepU State.focus setFile
+    simp [hB]
+
+example :
+    (execU siWorld none 50 (.load 1 2 .none) (stepU siWorld 50 (.edit 0 1 [] [11] 9) uState).2).2.thy = some [110, 120]
+    ∧ (execU siWorld none 50 (.load 0 2 .none) (stepU siWorld 50 (.edit 1 1 [] [111] 9) uState).2).2.thy = some [10, 20] :=
+  ⟨by decide, by decide⟩
 
 /-! ### the tables generated from the sources -/
 
